@@ -4,12 +4,13 @@ import engine_common as ec
 import engine_plugin as ep
 from vlib import Case, Stream
 import c06intern as ci
+import c06body as cbk
 import c01rank as rk
 import os
 from vlib import BUILD, model_cmd
 
 ID = "C06"
-LEAN_MODULES = ["HgVerif.Props.NestFlowCor", "HgVerif.Props.C06", "HgVerif.Props.C06Den", "HgVerif.Props.C06Run", "HgVerif.Model.Engine", "HgVerif.Model.Extracted", "HgVerif.Props.C01Rank"] + ci.LEAN_MODULES
+LEAN_MODULES = ["HgVerif.Props.NestFlowCor", "HgVerif.Props.C06", "HgVerif.Props.C06Den", "HgVerif.Props.C06Run", "HgVerif.Model.Engine", "HgVerif.Model.Extracted", "HgVerif.Props.C01Rank"] + ci.LEAN_MODULES + cbk.LEAN_MODULES
 THEOREMS = ["HgVerif.NestFlow.nested_run_rank_independent", "HgVerif.Intern.intern_equal_keys_share", "HgVerif.Intern.intern_distinct_keys_differ",
             "HgVerif.Intern.sinks_never_merged", "HgVerif.Intern.identical_sinks_distinct", "HgVerif.Intern.inv_addNode",
             "HgVerif.Intern.addNode_id_lt", "HgVerif.Rank.kahn_free_irrelevant", "HgVerif.Sched.cycle_strictly_increasing",
@@ -17,8 +18,8 @@ THEOREMS = ["HgVerif.NestFlow.nested_run_rank_independent", "HgVerif.Intern.inte
             "HgVerif.Flow.cycle_eq_denSeq", "HgVerif.Flow.cycle_rank_independent", "HgVerif.Flow.fired_rank_independent",
             "HgVerif.Flow.cycle_rank_independent_fun", "HgVerif.Flow.scanFrom_slots",
             "HgVerif.Flow.cycle_view_independent", "HgVerif.Flow.next_of_views", "HgVerif.Flow.cycle_rel", "HgVerif.Flow.run_rank_independent",
-            "HgVerif.Rank.kahn_perm", "HgVerif.Rank.kahn_edges_forward", "HgVerif.Rank.kahn_accepts_dags", "HgVerif.Rank.finish_ok_iff"] + ci.THEOREMS
-CXX_TARGETS = ["hgv_engine", "hgv_rank"] + ci.CXX_TARGETS
+            "HgVerif.Rank.kahn_perm", "HgVerif.Rank.kahn_edges_forward", "HgVerif.Rank.kahn_accepts_dags", "HgVerif.Rank.finish_ok_iff"] + ci.THEOREMS + cbk.THEOREMS
+CXX_TARGETS = ["hgv_engine", "hgv_rank"] + ci.CXX_TARGETS + cbk.CXX_TARGETS
 USES_EXTRACT = True
 RULE = ("each case holds ONE dataflow wired in 3-4 different admissible statement orders (random linear extensions), run one after "
         "the other; dataflows contain duplicated sub-expressions (same definition with same scalar and inputs, other scalar, swapped "
@@ -27,10 +28,10 @@ RULE = ("each case holds ONE dataflow wired in 3-4 different admissible statemen
         "deliberately distinct duplicate; distinct by program text; stream rank-orders: one acyclic wiring (1-14 dummy nodes, 0-3 inputs, "
         "duplicated producers on one consumer, explicit rank dependencies, rank-free edges) declared in 3 different statement orders - "
         "the real Wiring::finish must accept every order and rank every producer before its consumers (the hypothesis of "
-        "run_rank_independent); " + ci.RULE)
-TRUSTED = ["key equality on Value scalars uses the code's Value::equals/hash: exercised for Int scalars and for an Int / a Float scalar of equal value"] + ci.TRUSTED[1:]
+        "run_rank_independent); " + ci.RULE + "; " + cbk.RULE)
+TRUSTED = ["key equality on Value scalars uses the code's Value::equals/hash: exercised for Int scalars and for an Int / a Float scalar of equal value"] + ci.TRUSTED[1:] + cbk.TRUSTED
 ASSUMPTIONS = ["engine streams: all ports TS[int] (the intern streams add TS[float] / TS[bool] ports through generic definitions); "
-               "interning of nested-graph nodes is exercised only through distinct scalars"] + ci.ASSUMPTIONS
+               "interning of nested-graph nodes is exercised only through distinct scalars"] + ci.ASSUMPTIONS + cbk.ASSUMPTIONS
 TECHNIQUE = ("Lean 4 proof of the interning table (equal keys share, different keys differ, sinks never merge) + rank/scan "
              "order theorems + differential correspondence (the model ranks with the Kahn model and must match every statement "
              "order exactly) + cross-order monitor")
@@ -66,7 +67,7 @@ def streams(rng, tier, seed):
         p = ec.gen_sharing(rng) if i % 3 else ec.gen_flat(rng, sched=(i % 2 == 0))
         cases.append(make_case(rng, i, p, rng.choice([3, 4])))
     return [Stream("engine-orders", [ec.ENGINE], ec.model_cmd("Engine"), cases, timeout=900),
-            Stream("rank-orders", [os.path.join(BUILD, "hgv_rank")], model_cmd("C01Rank"), rank_order_cases(rng, tier))] + ci.streams(rng, tier, seed)
+            Stream("rank-orders", [os.path.join(BUILD, "hgv_rank")], model_cmd("C01Rank"), rank_order_cases(rng, tier))] + ci.streams(rng, tier, seed) + cbk.streams(rng, tier, seed)
 
 
 def rank_order_cases(rng, tier):
@@ -104,6 +105,8 @@ def _segments(case, out):
 def monitor(stream, case, out):
     if stream.startswith("intern"):
         return ci.monitor(stream, case, out)
+    if stream.startswith("bodykey"):
+        return cbk.monitor(stream, case, out)
     if stream == "rank-orders":
         return ["[order-rank] this statement order of an acyclic wiring is not accepted with a producers-first rank: " + m
                 for m in rk.monitor(stream, case, out)]
@@ -139,6 +142,8 @@ def monitor(stream, case, out):
 def features(stream, case, out):
     if stream.startswith("intern"):
         return ci.features(stream, case, out)
+    if stream.startswith("bodykey"):
+        return cbk.features(stream, case, out)
     if stream == "rank-orders":
         return ["rank-orders:" + f for f in rk.features(stream, case, out)]
     f = set()
@@ -161,6 +166,8 @@ def features(stream, case, out):
 def nontrivial(stream, case, out):
     if stream.startswith("intern"):
         return ci.nontrivial(stream, case, out)
+    if stream.startswith("bodykey"):
+        return cbk.nontrivial(stream, case, out)
     if stream == "rank-orders":
         return rk.nontrivial(stream, case, out)
     segs = _segments(case, out)
@@ -173,6 +180,8 @@ def nontrivial(stream, case, out):
 def alarm_filter(stream, case, impl_out, model_out):
     if stream.startswith("intern"):
         return ci.alarm_filter(stream, case, impl_out, model_out)
+    if stream.startswith("bodykey"):
+        return cbk.alarm_filter(stream, case, impl_out, model_out)
     if stream == "rank-orders":
         return rk.alarm_filter(stream, case, impl_out, model_out)
     # compare run lines canonically; every other line must be equal
@@ -186,6 +195,8 @@ def alarm_filter(stream, case, impl_out, model_out):
 def valid_case(stream, case, impl_out, model_out):
     if stream.startswith("intern"):
         return ci.valid_case(stream, case, impl_out, model_out)
+    if stream.startswith("bodykey"):
+        return cbk.valid_case(stream, case, impl_out, model_out)
     if stream == "rank-orders":
         return rk.expected_class(rk.parse(case)) == "ok"
     for o in (impl_out, model_out):
